@@ -27,6 +27,9 @@ def plan(tier):
     # validator-set change between heights 1 and 2 (power update of an honest validator; partial synchrony so that heights finish)
     p.sims.append((tm.Cfg('sim-n4-power-update', [1, 1, 1, 1], [4], max_round=2, max_height=2, nbyz=1, budget=4, own_first=False,
                           useful_only=True, sync=True, next_power={2: [2, 1, 1, 1]}), n, d + 90))
+    # the locking discipline is what Agreement rests on: the directed lock / unlock / relock / stale-polka schedules
+    # (tm_scenarios.py; they reach situations the bounded exhaustive configuration and short simulations rarely reach)
+    p.scenarios = ['lock_unlock', 'relock_and_pol_proposal', 'locked_without_proposal', 'stale_polka_must_not_unlock']
     return p
 
 
